@@ -2,6 +2,7 @@ package gocql
 
 import (
 	"context"
+	"sync"
 
 	"github.com/gocql/gocql/internal/lru"
 )
@@ -94,8 +95,31 @@ func vCallerCtx() *vCtx {
 	return ctx
 }
 
+// environment step at every acquisition of the cache lock: whatever the cache holds now is what another
+// executor looking the statement up at this moment finds. A finished, failed PREPARE must never be there
+// (it would be reported to someone who was not waiting on it, and no new PREPARE would be sent).
+var (
+	vLRU           *preparedLRU
+	vLRUKey        string
+	vFailedVisible bool
+)
+
+func vOnLockPrepared(mu *sync.Mutex) {
+	if vLRU == nil || mu != &vLRU.mu {
+		return
+	}
+	if v, ok := vLRU.lru.Get(vLRUKey); ok {
+		fl := v.(*inflightPrepare)
+		if vIsClosed(fl.done) && fl.err != nil {
+			vFailedVisible = true
+		}
+	}
+}
+
 func vh_prepare_outcomes() {
 	c := vConnWithCache(2)
+	vLRU, vFailedVisible = c.session.stmtsLRU, false
+	vLRUKey = vLRU.keyFor(c.host.HostID(), c.currentKeyspace, "SELECT a")
 	kind := vChoose("prepare_answer", 4)
 	id := vBytesN("id", 2)
 	vSecondID = vBytesN("id2", 2)
@@ -120,6 +144,7 @@ func vh_prepare_outcomes() {
 	} else {
 		vAssert(err != nil && st == nil, "C14/prepare/failure-reported")
 		vAssert(cache.Len() == 0, "C14/prepare/failure-not-remembered")
+		vAssert(!vFailedVisible, "C14/prepare/a-finished-failed-prepare-is-never-visible-in-the-cache")
 		st2, err2 := c.prepareStatement(&vCtx{done: make(chan struct{})}, "SELECT a", nil)
 		vAssert(len(vExecLog) == 2 && err2 == nil && st2 != nil && refBytesEq(st2.id, vPrepareIDs2()), "C14/prepare/prepared-again-after-a-failure")
 	}
